@@ -69,6 +69,7 @@ type HCase struct {
 	TimeOff   int64      `json:"time_off"`
 	MixBad    bool       `json:"mix_bad,omitempty"`
 	Cht       bool       `json:"cht,omitempty"`
+	SelfCanon int        `json:"self_canon,omitempty"` // the chain already holds, as canonical at this height, a header with the SAME hash (stored by an earlier seal=false pass): 1 the header itself, 2 its variant without vote container and certificate
 	ParentRef int        `json:"parent_ref"` // index into Chain of the header whose hash is ParentHash; -1 = some other hash
 	Verdict   int        `json:"verdict"`
 	Err       string     `json:"err,omitempty"`
@@ -208,6 +209,17 @@ func observeH(hc *HCase) (hb *hbuilt) {
 	if !haveGenesis {
 		panic("header-path case without a canonical header 0")
 	}
+	if hc.SelfCanon > 0 {
+		st := types.CopyHeader(hb.b.header)
+		if hc.SelfCanon == 2 {
+			st.Validator, st.Certificate = []byte{}, []byte{}
+		}
+		if st.Hash() != hb.b.header.Hash() {
+			panic("vote containers are part of the header hash")
+		}
+		rawdb.WriteHeader(db, st)
+		rawdb.WriteCanonicalHash(db, st.Hash(), hc.C.H.Number)
+	}
 	hch, err := core.NewHeaderChain(db, nil, nil, nil)
 	if err != nil {
 		panic(err)
@@ -332,6 +344,9 @@ func (hc *HCase) coq(hb *hbuilt) string {
 		if e.Where == 1 || e.Where == 3 {
 			parents = append(parents, xh(i))
 		}
+	}
+	if hc.SelfCanon > 0 {
+		canon = append(canon, fmt.Sprintf("mkXH (mkH %d 0 %d 1 None None None 0) %d true 600 false", hc.C.H.Number, ext.parentID, modelNow+hc.TimeOff))
 	}
 	for _, r := range hc.Readers {
 		var l string
@@ -778,6 +793,14 @@ func (g *gen) hcase(res *vf.Result) HCase {
 				e.Where = 2
 				tag = "parent_on_side_chain"
 			}
+		}
+	}
+	// the same-hash header is already canonical at this height (a header-only pass stored it
+	// without looking at its votes); the votes of the one under verification must still count
+	if !ac && r.Chance(18) {
+		if _, other := ents[n]; !other && !hc.MixBad {
+			hc.SelfCanon = 1 + r.Intn(2)
+			res.Count("hforge:same_hash_header_already_canonical")
 		}
 	}
 	res.Count("hforge:" + tag)
